@@ -81,6 +81,7 @@ structure Setup where
   catchAll : Bool := true
   batchPct : Nat := 5
   reportFlush : Bool := true
+  keepUnreported : Bool := true
   sinks : List Sink := []
   lgs : List Lg := []
 
@@ -89,7 +90,7 @@ def mkState (u : Setup) (hdr strOv now : Nat) : BSt :=
   { cfg := { dropping := u.dropping, qcap := u.qcap, grace := u.grace, soft := u.soft, hard := u.hard, hdr := hdr,
              strOverhead := strOv, batchPct := u.batchPct, qp := qp, invalidBits := u.invalidBits,
              refreshAfterSample := u.refreshAfter, catchAllFormat := u.catchAll,
-             reportBeforeFlushCleanup := u.reportFlush },
+             reportBeforeFlushCleanup := u.reportFlush, cleanupKeepsUnreported := u.keepUnreported },
     now := now, sinks := u.sinks, lgs := u.lgs,
     names := (List.range u.lgs.length).map (fun i => ((u.lgs.getD i default).gid, i)) }
 
@@ -127,6 +128,7 @@ def runTrace : IO UInt32 := do
         | some ("catchAll", v) => u := { u with catchAll := v == "1" }
         | some ("batchPct", v) => u := { u with batchPct := nat! v }
         | some ("reportFlush", v) => u := { u with reportFlush := v == "1" }
+        | some ("keepUnreported", v) => u := { u with keepUnreported := v == "1" }
         | _ => pure ()
     | "cfg" :: rest =>
       for x in rest ++ Drv.words obsS do
